@@ -90,12 +90,15 @@ def run(ck):
         if not exact and i % 5 == 3:
             Xv = (Xv * np.float32(1e-5)).astype(np.float32)
         yv = xr.make_y('reg', Xv, rng)
-        desc = dict(i=i, n=n, L=L, d=d, f=f, method=method, exact=exact, tree_iters=tree_iters, small_magnitude=bool((not exact) and i % 5 == 3), forced_splits=kw.get('number_of_splits'), seed=ck.seed)
+        desc = dict(i=i, n=n, L=L, d=d, f=f, method=method, exact=exact, tree_iters=tree_iters, small_magnitude=bool((not exact) and i % 5 == 3), forced_splits=kw.get('number_of_splits'), configured_temperature=(0.05 if i % 6 == 2 else None), seed=ck.seed)
         xr.seed_all(8000 + i + ck.seed)
         model = xr.xRFM(rfm_params=xr.default_rfm_params(iters=(1 if tree_iters else 0), reg=1e-2), max_leaf_size=L, split_method=method,
-                        overlap_fraction=f, verbose=False, use_temperature_tuning=False, refill_size=10, n_tree_iters=tree_iters, **kw)
+                        overlap_fraction=f, verbose=False, use_temperature_tuning=False, refill_size=10, n_tree_iters=tree_iters,
+                        # every sixth fit: a soft-routing temperature is configured (it concerns prediction only: the caller's validation points are still ROUTED by the <= rule)
+                        **(dict(split_temperature=0.05) if i % 6 == 2 else {}), **kw)
         Xt = torch.tensor(X)
         rec = xr.fit_recorded(model, Xt, torch.tensor(y), torch.tensor(Xv), torch.tensor(yv), timeout=120, tolerate_empty_val=True)
+        model.split_temperature = None          # the routing that is examined below is the hard one
         if rec.error is not None:
             ck.violation(f'fit did not return ({rec.error}) on {desc}', dict(desc, error=rec.error), key=json.dumps(dict(site='fit')))
             continue
